@@ -29,7 +29,7 @@ EXPLANATION = (
     "elements below the root (64 shapes, repetitions in rotation, names and types unknown, arena hooked), "
     "returns exactly the tree's leaves in order with the specification's definition / repetition levels, "
     "requests the leaf arrays with that many entries and writes nothing past them - whatever walk is behind "
-    "it (recursive, iterative, renamed). Decides these clauses; leaf order and counts for trees beyond the "
+    "it (recursive, iterative, renamed). (10) the schema elements of a footer - names, also empty ones - come back from the parser as written (round-trip probe of FileMetaData, second pass with every string empty). Decides these clauses; leaf order and counts for trees beyond the "
     "bound follow from (1) and (9) only by the per-node argument, not by execution.")
 
 FR = "src/reader/file_reader.c"
